@@ -181,6 +181,8 @@ IMPLICIT = {'ul': 'li', 'ol': 'li', 'table': 'tr', 'tbody': 'tr', 'thead': 'tr',
 def implicit_names(forest, parent, inline):
     """an element written with attributes but no name gets the documented implicit name for its parent"""
     for el in forest:
+        if not el['name'] and not el['mentions'] and el['text'] is not None:
+            continue                                   # a text-only node `{text}` is not an element and gets no name
         if not el['name']:
             p = (parent or '').lower()
             if p in IMPLICIT: el['name'] = IMPLICIT[p]
